@@ -57,6 +57,7 @@ type tabCell struct {
 	Results []ast.Expr
 	St      *tabState
 	// delegation
+	Swapped  bool // the delegation passes the right operand as receiver and the receiver as argument
 	RecvExpr ast.Expr
 	RecvT    types.Type
 	RightT   types.Type
@@ -514,6 +515,10 @@ func (e *tabEval) retCell(r *ast.ReturnStmt, st *tabState) {
 				} else {
 					c.RightT = e.info.TypeOf(ra)
 				}
+				rr, ar := e.derivedRole(sel.X, st), e.derivedRole(ra, st)
+				if (rr == "R~" || rr == "R") && (ar == "L~" || ar == "L") {
+					c.Swapped = true
+				}
 				if _, isIface := c.RecvT.Underlying().(*types.Interface); isIface {
 					c.Kind = "dyn"
 				} else {
@@ -629,29 +634,30 @@ func (t *tabber) cells(method string, T, R types.Type, tok *int64) []tabCell {
 // only leaf cells remain.  chain records the receiver expressions followed.
 type leafCell struct {
 	tabCell
-	Chain []string // e.g. ["Uint(L)"]: conversions / field selections applied to the left operand
-	Depth int
+	Chain   []string // e.g. ["Uint(L)"]: conversions / field selections applied to the left operand
+	Depth   int
+	Flipped bool // an odd number of operand-swapping delegations led here: the cell's L is the original right operand
 }
 
 func (t *tabber) resolve(method string, T, R types.Type, tok *int64) []leafCell {
 	var out []leafCell
-	var rec func(T, R types.Type, chain []string, depth int)
-	rec = func(T, R types.Type, chain []string, depth int) {
+	var rec func(T, R types.Type, chain []string, depth int, flipped bool)
+	rec = func(T, R types.Type, chain []string, depth int, flipped bool) {
 		for _, c := range t.cells(method, T, R, tok) {
 			if c.Kind == "delegate" {
 				if depth >= 6 {
 					c.Kind, c.Why = "undecided", "delegation chain longer than 6"
-					out = append(out, leafCell{c, chain, depth})
+					out = append(out, leafCell{c, chain, depth, flipped})
 					continue
 				}
 				step := exprShape(c.Pkg.TypesInfo, c.RecvExpr, c.St)
-				rec(c.RecvT, c.RightT, append(append([]string{}, chain...), step), depth+1)
+				rec(c.RecvT, c.RightT, append(append([]string{}, chain...), step), depth+1, flipped != c.Swapped)
 				continue
 			}
-			out = append(out, leafCell{c, chain, depth})
+			out = append(out, leafCell{c, chain, depth, flipped})
 		}
 	}
-	rec(T, R, nil, 0)
+	rec(T, R, nil, 0, false)
 	return out
 }
 
